@@ -358,6 +358,105 @@ fn run_sizes(h: &mut H, mode: &str, kind: usize, size: usize) -> Result<Vec<Valu
     Ok(problems)
 }
 
+
+// ------------------------------------------------------------------ (E) the operating system refuses the write
+
+fn set_fsize_limit(n: Option<u64>) {
+    unsafe {
+        libc::signal(libc::SIGXFSZ, libc::SIG_IGN);
+        let mut cur: libc::rlimit = std::mem::zeroed();
+        libc::getrlimit(libc::RLIMIT_FSIZE, &mut cur);
+        cur.rlim_cur = match n {
+            Some(x) => x as libc::rlim_t,
+            None => cur.rlim_max,
+        };
+        libc::setrlimit(libc::RLIMIT_FSIZE, &cur);
+    }
+}
+
+/// The failing write is the kernel's: the process's file size limit is set to n bytes for every n from 0 to the size of
+/// the dump, so that the write(2) that crosses it fails with EFBIG - wherever the code buffers, and including the very
+/// last flush (family A fails the writer's own raw-write call, above the buffering; a seeded change that left the last
+/// flush to the buffer's destructor, which swallows errors, answered OK and renamed a truncated file over the good dump).
+fn run_os_faults(h: &mut H, mode: &str) -> Result<Value, String> {
+    h.drop_server();
+    h.ensure()?;
+    let mut problems: Vec<Value> = Vec::new();
+    let mut points = 0u64;
+    let mut which = 0usize;
+    build_dataset(h, which)?;
+    h.must_ok(&["SAVE"])?;
+    let mut n = 0u64;
+    loop {
+        which = 1 - which;
+        build_dataset(h, which)?;
+        let prev = read_file(&h.dump_path());
+        // size of the dump this dataset produces: from an unlimited save into the same place, then put the old one back
+        h.must_ok(&["SAVE"])?;
+        let full = read_file(&h.dump_path()).map(|b| b.len() as u64).unwrap_or(0);
+        if let Some(p) = &prev {
+            std::fs::write(h.dump_path(), p).map_err(|e| format!("restore previous dump: {}", e))?;
+        }
+        if n >= full {
+            break;
+        }
+        let ends = gate::counter(vh::BGSAVE_END);
+        set_fsize_limit(Some(n));
+        let reply = h.calls(&[mode]);
+        let mut ended = true;
+        if mode == "BGSAVE" && reply.as_ref().map(|r| !r.is_err()).unwrap_or(false) {
+            ended = h.wait_bgsave_done(ends + 1).is_ok();
+        }
+        set_fsize_limit(None);
+        let reply = reply?;
+        points += 1;
+        let ctx = json!({"mode": mode, "file_size_limit": n, "dump_size": full, "dataset": which});
+        if !ended {
+            problems.push(json!({"problem": "background-save-with-a-refused-write-never-ended", "ctx": ctx}));
+            h.drop_server();
+            break;
+        }
+        if mode == "SAVE" && !reply.is_err() {
+            problems.push(json!({"problem": "save-answered-ok-although-the-system-refused-a-write", "ctx": ctx, "reply": resp::show(&reply)}));
+        }
+        let now = read_file(&h.dump_path());
+        if now != prev {
+            problems.push(json!({"problem": "failed-save-touched-the-previous-dump", "ctx": ctx, "before_len": prev.as_ref().map(|p| p.len()), "after_len": now.as_ref().map(|p| p.len())}));
+            // put the good dump back so that the next point starts from the same situation
+            if let Some(p) = &prev {
+                let _ = std::fs::write(h.dump_path(), p);
+            }
+        }
+        // a later save works and its dump is the dataset
+        let ends = gate::counter(vh::BGSAVE_END);
+        let r2 = h.calls(&[mode])?;
+        if r2.is_err() {
+            problems.push(json!({"problem": "save-refused-after-a-failed-save", "ctx": ctx, "reply": resp::show(&r2)}));
+            h.drop_server();
+            h.ensure()?;
+            build_dataset(h, which)?;
+            h.must_ok(&["SAVE"])?;
+        } else {
+            if mode == "BGSAVE" {
+                h.wait_bgsave_done(ends + 1)?;
+            }
+            match h.loader.load(&h.dump_path()) {
+                Ok(loaded) => {
+                    if !same_dataset(&loaded, &h.live()) {
+                        problems.push(json!({"problem": "dump-after-the-retry-differs-from-the-dataset", "ctx": ctx}));
+                    }
+                }
+                Err(e) => problems.push(json!({"problem": "dump-after-the-retry-does-not-load", "ctx": ctx, "error": e})),
+            }
+        }
+        n += 1;
+        if n > 20_000 {
+            return Err("dump larger than 20000 bytes in the small-dataset family".into());
+        }
+    }
+    Ok(json!({"points": points, "problems": problems}))
+}
+
 // ------------------------------------------------------------------ (A) write faults and crash points
 
 fn dataset_cmds(which: usize) -> Vec<Vec<&'static str>> {
@@ -1139,6 +1238,16 @@ pub fn handle_factory() -> impl FnMut(&str, &Value, &mut WorkerIo) -> (Value, bo
                     None => json!({"cases": cases, "problems": problems}),
                 }, false)
             }
+            "osfaults" => {
+                let hh = h.as_mut().unwrap();
+                let r = run_os_faults(hh, task["mode"].as_str().unwrap_or("SAVE"));
+                set_fsize_limit(None);
+                hh.drop_server();
+                (match r {
+                    Ok(v) => v,
+                    Err(e) => json!({"error": e}),
+                }, true)
+            }
             "crashpoints" => {
                 let hh = h.as_mut().unwrap();
                 let r = run_crashpoints(hh, task["mode"].as_str().unwrap_or("SAVE"), task["prev"].as_bool().unwrap_or(true));
@@ -1315,6 +1424,10 @@ pub fn parent(tier: &str) -> i32 {
             }
         }
     }
+    // (E)
+    for mode in ["SAVE", "BGSAVE"] {
+        tasks.push(json!({"kind": "osfaults", "mode": mode, "prev": true, "thorough": thorough}));
+    }
     // (D)
     for mode in ["SAVE", "BGSAVE"] {
         for k in 0..SIZE_KINDS.len() {
@@ -1364,9 +1477,9 @@ pub fn parent(tier: &str) -> i32 {
                     report.machinery_errors.push(format!("{}", e));
                 }
                 match kind {
-                    "faults" | "crashpoints" => {
+                    "faults" | "crashpoints" | "osfaults" => {
                         let pts = v["points"].as_u64().unwrap_or(0);
-                        if kind == "faults" { fault_points += pts } else { crash_pauses += pts }
+                        if kind == "crashpoints" { crash_pauses += pts } else { fault_points += pts }
                         *per_family.entry(kind.to_string()).or_default() += pts;
                         if pts == 0 {
                             report.machinery_errors.push(format!("{}: no point explored", t));
@@ -1454,7 +1567,7 @@ pub fn parent(tier: &str) -> i32 {
     println!("  c10: write-fault points={} crash-point pauses={} schedules={} (pauses {}, {} distinct pause sequences) damaged files={}", fault_points, crash_pauses, schedules_run, sched_pauses, shapes.len(), read_cases);
     report.coverage = json!({
         "evaluations": evaluations, "distinct_nontrivial": evaluations,
-        "rule": "every case is distinct by construction (a different failing write / pause / schedule / damaged byte) and non-trivial (the fault was reached, the save thread paused, or the file differs from the valid dump). (A) for SAVE and BGSAVE x {fail once, fail from then on} x {previous dump present, absent}: every raw write n of the save as the failing write, alternating between two datasets: error reply (SAVE), dump byte-identical to before (or still absent), a following save of the same kind is accepted and its dump loads to the live dataset; the save paused at every raw write and before/after the rename with the file on disk compared at each pause. (B) the real save thread stepped through begin / per-key get, ttl, write / zset len-items / rename / end on a three-key dataset for 6 types x TTL {none, 100 s, 50 ms}: every placement of 0..1 (thorough 0..2) menu items (grow, change, shrink, empty, delete, replace by another type, re-create, EXPIRE, PERSIST, RENAME away / over, unrelated key, FLUSHALL, clock +1 s with sweeper pass, clock past the deadline) at every pause; the same with the save started by the real auto-save monitor thread; a second writer (SAVE, also after a change, and BGSAVE) at every pause with a 20 KB bystander; a synchronous SAVE parked on the event-loop thread with the clock moved at every per-key point. Oracle: at every pause the dump on disk is byte-identical to the previous one or loads completely and per-key consistently; the final dump loads, every key in it has a (value, TTL) pair the key had at one instant during the save (snapshots taken before the save and after every placed item), keys present throughout are in it, another BGSAVE is accepted afterwards. (C) every prefix and every single-byte substitution (quick: 22 values at the opcode/length bit patterns; thorough: all 255) of three valid dumps (all types and a TTL in two databases; 14-bit lengths; a 32-bit length, payload positions sparsely) loaded with RdbEngine::load: no panic, no process death, largest single allocation <= 4 x file size + 64 KiB + the largest one made while loading the undamaged file, < 3 s. (D) SAVE and BGSAVE without faults of datasets whose string value / key name / list, set, hash, zset element count / element, field, stream value length is 1, 63, 64, 16383, 16384, 16385, 65536 (thorough adds 62, 65, 255, 256, 16382, 65535, 65537), with bystander keys in several shards and another database: the completed dump loads and equals the live dataset.",
+        "rule": "every case is distinct by construction (a different failing write / pause / schedule / damaged byte) and non-trivial (the fault was reached, the save thread paused, or the file differs from the valid dump). (A) for SAVE and BGSAVE x {fail once, fail from then on} x {previous dump present, absent}: every raw write n of the save as the failing write, alternating between two datasets: error reply (SAVE), dump byte-identical to before (or still absent), a following save of the same kind is accepted and its dump loads to the live dataset; the save paused at every raw write and before/after the rename with the file on disk compared at each pause. (B) the real save thread stepped through begin / per-key get, ttl, write / zset len-items / rename / end on a three-key dataset for 6 types x TTL {none, 100 s, 50 ms}: every placement of 0..1 (thorough 0..2) menu items (grow, change, shrink, empty, delete, replace by another type, re-create, EXPIRE, PERSIST, RENAME away / over, unrelated key, FLUSHALL, clock +1 s with sweeper pass, clock past the deadline) at every pause; the same with the save started by the real auto-save monitor thread; a second writer (SAVE, also after a change, and BGSAVE) at every pause with a 20 KB bystander; a synchronous SAVE parked on the event-loop thread with the clock moved at every per-key point. Oracle: at every pause the dump on disk is byte-identical to the previous one or loads completely and per-key consistently; the final dump loads, every key in it has a (value, TTL) pair the key had at one instant during the save (snapshots taken before the save and after every placed item), keys present throughout are in it, another BGSAVE is accepted afterwards. (C) every prefix and every single-byte substitution (quick: 22 values at the opcode/length bit patterns; thorough: all 255) of three valid dumps (all types and a TTL in two databases; 14-bit lengths; a 32-bit length, payload positions sparsely) loaded with RdbEngine::load: no panic, no process death, largest single allocation <= 4 x file size + 64 KiB + the largest one made while loading the undamaged file, < 3 s. (E) the process's file size limit set to every n from 0 to the size of the dump, so that the kernel refuses the write that crosses it (EFBIG), for SAVE and BGSAVE: same oracle as (A). (D) SAVE and BGSAVE without faults of datasets whose string value / key name / list, set, hash, zset element count / element, field, stream value length is 1, 63, 64, 16383, 16384, 16385, 65536 (thorough adds 62, 65, 255, 256, 16382, 65535, 65537), with bystander keys in several shards and another database: the completed dump loads and equals the live dataset.",
         "samples": samples, "exhaustive": true,
         "write_fault_points": fault_points, "crash_point_pauses": crash_pauses, "schedules": schedules_run, "schedule_pauses": sched_pauses,
         "distinct_pause_sequences": shapes.iter().cloned().collect::<Vec<_>>(), "damaged_files_loaded": read_cases, "completed_saves_at_length_boundaries": size_cases, "read_space": read_space, "per_family": per_family,
